@@ -24,7 +24,7 @@
 (***************************************************************************)
 EXTENDS RA_SqlSem, RA_Diag, Json
 
-CONSTANTS Contents, BoundModes, MenuKind, MaxDepth, Emit
+CONSTANTS Contents, BoundModes, MenuKind, MaxDepth, StartChain, Emit
 
 VARIABLES t1, bnd, hist, rel, ref
 vars == <<t1, bnd, hist, rel, ref>>
@@ -148,13 +148,16 @@ CallRows(c, r, rows) ==
 Calls(r, h) == {UnCall(op) : op \in UnaryMenu(Cols(r), h)} \cup BinaryCalls(r)
                  \cup {[f |-> "xfer", dest |-> "sql"]}
 
+\* StartChain: programs start from T1 UNION ALL T3 (a compound select), so that
+\* the bounded depth is spent on operations over a chain
+StartCall == [f |-> "chain", rhs |-> "T3"]
 Init == /\ t1 \in Contents
         /\ bnd \in BoundModes
-        /\ hist = <<>>
-        /\ rel = PlainSel(LeafT1(t1, bnd))
-        /\ ref = t1
+        /\ hist = (IF StartChain THEN <<StartCall>> ELSE <<>>)
+        /\ rel = (IF StartChain THEN CallResult(StartCall, PlainSel(LeafT1(t1, bnd))) ELSE PlainSel(LeafT1(t1, bnd)))
+        /\ ref = (IF StartChain THEN t1 \o T3Rows ELSE t1)
 
-Step == /\ Len(hist) < MaxDepth
+Step == /\ Len(hist) < MaxDepth + (IF StartChain THEN 1 ELSE 0)
         /\ \E c \in Calls(rel, hist) :
               LET r == CallResult(c, rel) IN
               /\ ~IsErr(r)
